@@ -180,6 +180,9 @@ func (z *zmodemTransfer) handleZmodemError(msg string) {
 	if cmd := z.cmd.Load(); cmd != nil {
 		_ = writeAll(z.stdin, zmodemCancelFullSequence)
 		z.ensureClientExit(cmd)
+	} else {
+		// no client to wait for: finish the session once the server has been quiet
+		z.resetCleanupTimer()
 	}
 
 	z.writeMessage(msg)
